@@ -301,9 +301,11 @@ def is_in_scenarios(repo, regs):
 class Frame:
     """schema of a (lazy) frame: the ordered column names; the operations the join branch uses, with Polars' naming rules"""
 
-    def __init__(self, columns, log=None):
+    def __init__(self, columns, log=None, padded=()):
         self.columns = list(columns)
         self.log = log if log is not None else []
+        # columns that are null in the rows of a left input that found no partner (contributed by the right side of a left join)
+        self.padded = set(padded)
 
 
 def _frame_obj(world, fr: Frame):
@@ -311,12 +313,13 @@ def _frame_obj(world, fr: Frame):
     o.cls = _OP_CLASS
     o.attrs = {"__frame__": fr}
 
-    def mk(cols, what):
-        return _frame_obj(world, Frame(cols, fr.log + [what]))
+    def mk(cols, what, padded=None):
+        pad = fr.padded if padded is None else padded
+        return _frame_obj(world, Frame(cols, fr.log + [what], {c for c in pad if c in cols}))
 
     def rename(mapping):
         cols = [mapping.get(c, c) for c in fr.columns]
-        return mk(cols, f"rename {mapping}")
+        return mk(cols, f"rename {mapping}", {mapping.get(c, c) for c in fr.padded})
 
     def _joined_cols(other, drop_right=()):
         rc = [c for c in other.attrs["__frame__"].columns if c not in drop_right]
@@ -326,9 +329,12 @@ def _frame_obj(world, fr: Frame):
         return out
 
     def join(other, on=None, left_on=None, right_on=None, how="inner", validate=None, coalesce=None, **kw):
-        if on is not None:  # join on a common column: that column appears once
-            return mk(_joined_cols(other, drop_right=(on,)), f"join on {on}")
-        return mk(_joined_cols(other), f"join how={how}")
+        ofr = other.attrs["__frame__"]
+        cols = _joined_cols(other, drop_right=(on,)) if on is not None else _joined_cols(other)  # on a common column: it appears once
+        added = cols[len(fr.columns):]
+        # a left join pads everything the right input contributes; otherwise the right input's own padding is kept
+        pad = set(fr.padded) | (set(added) if how == "left" else {c for c in added if c in ofr.padded or (c.endswith("_right") and c[: -len("_right")] in ofr.padded)})
+        return mk(cols, f"join on {on}" if on is not None else f"join how={how}", pad)
 
     def join_where(other, *preds):
         dropped = []
@@ -338,22 +344,30 @@ def _frame_obj(world, fr: Frame):
                 r = p.args[1].args[0]
                 if r in other.attrs["__frame__"].columns:
                     dropped.append(r)
-        return mk(_joined_cols(other, drop_right=dropped), f"join_where (drops {dropped})")
+        return mk(_joined_cols(other, drop_right=dropped), f"join_where (drops {dropped})", set(fr.padded) | set(other.attrs["__frame__"].padded))
 
     def with_columns(*exprs, **named):
         cols = list(fr.columns)
         flat = []
         for e in exprs:
             flat += list(e) if isinstance(e, (list, tuple)) else [e]
+        pad = set(fr.padded)
         for e in flat:
             if isinstance(e, Term) and e.fn == "alias":
                 nm = e.args[0]
                 if nm not in cols:
                     cols.append(nm)
+                # a copy of another column is padded iff its source is; anything else is not judged (taken as padded)
+                src = e.recv
+                if isinstance(src, Term) and src.fn.split(".")[-1] == "col" and len(src.args) == 1 and isinstance(src.args[0], str) and src.args[0] in fr.columns:
+                    (pad.add if src.args[0] in fr.padded else pad.discard)(nm)
+                else:
+                    pad.add(nm)
         for nm in named:
             if nm not in cols:
                 cols.append(nm)
-        return mk(cols, "with_columns")
+            pad.discard(nm)
+        return mk(cols, "with_columns", pad)
 
     def drop(*names):
         return mk([c for c in fr.columns if c not in names], f"drop {names}")
@@ -440,6 +454,11 @@ def join_name_scenarios(w: PolWorld, branch):
                 problems.append(f"the name map points at {missing}, the joined frame has {cols}")
             if len(set(cols)) != len(cols):
                 problems.append(f"the joined frame has duplicate columns {cols}")
+            if how == "left":
+                unpadded = sorted(names[u] for u in ruid.values() if u in names and names[u] in cols and names[u] not in df.attrs["__frame__"].padded)
+                if unpadded:
+                    problems.append(f"right column(s) {unpadded} are filled from the left input after the rows without a partner were added back "
+                                    "(a left join must leave every right column null in such rows)")
         else:
             problems.append("the joined frame is not a frame")
         if local["select"] != [luid[n] for n in lv] + [ruid[n] for n in rv]:
